@@ -101,6 +101,19 @@ def make_values(recipe):
             wd = rng.uniform(0.8, max(1.0, ndd / 4))
             dcirc = np.minimum(np.abs(dj - j0), ndd - np.abs(dj - j0)) if nd > 0 else 0 * dj
             vals[p] = rng.uniform(0.5, 20) * np.exp(-(((fi - i0) / wf) ** 2) - (dcirc / wd) ** 2)
+    elif kind == "gapped":
+        # swell and wind sea with exactly empty bins between them (thresholded model output, partitioned spectra):
+        # every direction that has energy has it in two frequency bands separated by zeros
+        vals = np.zeros((npos, nf, ndd))
+        for p in range(npos):
+            a1 = int(rng.integers(0, max(1, nf // 3)))
+            b1 = a1 + 1 + int(rng.integers(0, 2))
+            a2 = min(nf - 1, b1 + 1 + int(rng.integers(1, 3)))
+            dirs_on = rng.random(ndd) < 0.6
+            dirs_on[int(rng.integers(ndd))] = True
+            for j in np.nonzero(dirs_on)[0]:
+                vals[p, a1:b1, j] = np.round(rng.uniform(1, 30, b1 - a1), 2)
+                vals[p, a2:, j] = np.round(rng.uniform(0.5, 10, nf - a2), 2)
     elif kind == "random":
         vals = rng.uniform(0, 1, (npos, nf, ndd))
     elif kind == "decades":
@@ -186,6 +199,10 @@ def make_dataset(recipe, winds=True):
         i, j = order.index("freq"), order.index("dir")
         order[i], order[j] = order[j], order[i]
         da = da.transpose(*order).copy()
+        if int(recipe.get("data", {}).get("seed", 0)) % 2 or recipe.get("dir_first") == "c":
+            # built direction-major in the first place (rows are directions, contiguous in memory) rather than being a
+            # transposed copy of a frequency-major array
+            da = da.copy(data=np.ascontiguousarray(da.values))
     ds = da.to_dataset()
     rng = np.random.default_rng(int(recipe.get("aux_seed", recipe.get("data", {}).get("seed", 0))) + 7919)   # "aux_seed": two datasets share sites, winds, depths
     if "site" in lead_names:
